@@ -10,6 +10,7 @@ import os
 import random
 
 from .. import native
+from .. import paths
 from ..harness import CheckBase
 
 PARAM_VALUES = [1, 3, 4, 5, 7, 8, 10, 12, 16, 31, 33, 64, 100, 257, 1000]
@@ -24,6 +25,9 @@ def valid_pairs():
     return out
 
 
+mx_hint = [64]
+
+
 def make_data(r, kind, n):
     if kind == 'random':
         return r.randbytes(n)
@@ -31,6 +35,13 @@ def make_data(r, kind, n):
         return bytes([r.randrange(256)]) * n
     if kind == 'zeros':
         return bytes(n)
+    if kind == 'sparse':
+        # a sparse file / disk image: long zero runs between data, run ends anywhere relative to the pieces
+        out = bytearray()
+        while len(out) < n:
+            out += r.randbytes(r.choice([0, 1, 5, r.randint(1, 2 * mx_hint[0])]))
+            out += bytes(r.randint(2 * mx_hint[0], 9 * mx_hint[0]))
+        return bytes(out[:n])
     blk = r.randbytes(r.choice([1, 2, 3, 4, 5, 8, 12, 17, 64]))
     return (blk * (n // len(blk) + 1))[:n]
 
@@ -46,6 +57,13 @@ def segment(r, data, how, mx):
         return [data[i:i + step] for i in range(0, n, step)] or [b'']
     if how == 'trailing-empty':
         return [data, b'']
+    if how == 'wide':
+        pieces, i = [], 0
+        while i < n:
+            step = r.randint(mx, 6 * mx)
+            pieces.append(data[i:i + step])
+            i += step
+        return pieces or [b'']
     pieces, i = [], 0
     while i < n:
         step = r.choice([0, 0, 1, 2, 3, 4, 5, mx - 1, mx, mx + 1, 2 * mx, r.randint(1, 3 * mx + 1)])
@@ -58,7 +76,7 @@ def segment(r, data, how, mx):
     return pieces or [b'']
 
 
-SEGMENTATIONS = ['one', 'bytes', 'max-1', 'max', 'max+1', 'random', 'random2', 'trailing-empty']
+SEGMENTATIONS = ['one', 'bytes', 'max-1', 'max', 'max+1', 'random', 'random2', 'trailing-empty', 'wide']
 
 
 class Check(CheckBase):
@@ -101,6 +119,9 @@ class Check(CheckBase):
             mx = rr.choice([6_000_000, 5_200_000, 8_000_000])
             cases.insert(0, {'kind': 'large', 'min': rr.choice([128_000, 4096, mx // 16 // 4 * 4]), 'max': mx,
                              'seed': rr.randrange(1 << 30), 'timeout': 900})
+        # the adapter under an interpreter that strips assert statements (python -O / PYTHONOPTIMIZE): same function
+        for i in range(2 if quick else 8):
+            cases.insert(0, {'kind': 'optimised', 'how': ['-O', 'env'][i % 2], 'seed': i, 'timeout': 300})
         for (mn, mx) in pairs:
             if mx <= 257 or not quick:
                 cases.append({'kind': 'direct', 'min': mn, 'max': mx,
@@ -213,7 +234,53 @@ class Check(CheckBase):
             return self._direct(case)
         if case['kind'] == 'large':
             return self._large(case)
+        if case['kind'] == 'optimised':
+            return self._optimised(case)
         return self._params(case)
+
+    def _optimised(self, case):
+        import json
+        import subprocess
+        code = r'''
+import sys, json, random, itertools
+import vflib.rep
+from replicat.utils import adapters
+assert False, "assertions are on"          # must be stripped in this interpreter
+r = random.Random(int(sys.argv[1]))
+bad = []
+n_streams = 0
+for mn, mx in ((8, 64), (4, 256), (500, 10000), (12, 12)):
+    for _ in range(6):
+        n = r.randint(0, 30 * mx)
+        data = r.randbytes(n)
+        pieces, i = [], 0
+        while i < n:
+            step = r.randint(1, 4 * mx)
+            pieces.append(data[i:i + step]); i += step
+        ch = adapters.gclmulchunker(min_length=mn, max_length=mx)
+        out = list(itertools.islice(ch(iter(pieces or [b""]), params=r.randbytes(16)), n + 3))   # more chunks than bytes cannot be
+        n_streams += 1
+        if b"".join(bytes(c) for c in out) != data or any(len(c) == 0 for c in out) or len(out) > n + 1:
+            bad.append({"min": mn, "max": mx, "len": n, "chunks": len(out), "pieces": len(pieces)})
+print(json.dumps({"streams": n_streams, "bad": bad[:3]}))
+'''
+        env = {k: v for k, v in os.environ.items() if k not in ('LD_PRELOAD', 'ASAN_OPTIONS', 'UBSAN_OPTIONS')}
+        argv = [paths.PYTHON]
+        if case['how'] == '-O':
+            argv.append('-O')
+        else:
+            env['PYTHONOPTIMIZE'] = '1'
+        try:
+            p = subprocess.run(argv + ['-c', code, str(case['seed'])], capture_output=True, text=True, timeout=240, env=env, cwd=str(paths.VERIF))
+        except subprocess.TimeoutExpired:
+            return {'verdict': 'inconclusive', 'note': 'child interpreter watchdog', 'classes': [], 'counters': {}}
+        if p.returncode != 0 or not p.stdout.strip():
+            return {'verdict': 'inconclusive', 'note': f'child failed rc={p.returncode}: {p.stderr[-400:]}', 'classes': [], 'counters': {}}
+        res = json.loads(p.stdout.strip().splitlines()[-1])
+        v = [{'what': f'under an interpreter without assert statements ({case["how"]}) the chunks are not the input '
+                      f'({b["chunks"]} chunks for {b["len"]} bytes in {b["pieces"]} pieces)', 'mechanism': None, 'witness': b} for b in res['bad'][:2]]
+        return {'verdict': 'violated' if v else 'held', 'classes': [f'optimised|{case["how"]}'],
+                'counters': {'adapter_cases': res['streams'], 'optimised_interpreter_streams': res['streams']}, 'violations': v}
 
     def _large(self, case):
         mn, mx = case['min'], case['max']
@@ -271,7 +338,8 @@ class Check(CheckBase):
         self.mod._gclmulchunker = self.cls['asan']
         shared_adapter = self.adapters.gclmulchunker(min_length=mn, max_length=mx)
         for li, n in enumerate(lengths):
-            kind = r.choice(['random', 'random', 'const', 'zeros', 'periodic'])
+            kind = r.choice(['random', 'random', 'const', 'zeros', 'periodic', 'sparse', 'sparse'])
+            mx_hint[0] = mx
             data = make_data(r, kind, n)
             key = r.randbytes(16)
             if key[:8] == bytes(8):
@@ -331,7 +399,7 @@ class Check(CheckBase):
                                        'mechanism': None,
                                        'witness': dict(ident, a=lens[:40], b=[len(c) for c in again][:40])})
             # splitting independence outside the tail zone
-            other_seg = segment(r, data, r.choice(['one', 'random', 'bytes' if n < 3000 else 'max+1']), mx)
+            other_seg = segment(r, data, r.choice(['one', 'random', 'wide', 'bytes' if n < 3000 else 'max+1']), mx)
             alt = self._chunks('asan', 'exact', mn, mx, other_seg, key)
             def heads(chs):
                 out, p = [], 0
